@@ -6,7 +6,8 @@ PROPS = {
     "C04": [lambda ctx, rep: r9.rule_R9(ctx, rep, only=["prune_to_minimal"]),
             lambda ctx, rep: r11.rule_R11_switch(ctx, rep, funcs=["prune_to_minimal", "traverse_pruned_translation"]),
             c03.rule_list_owner, r13.rule_R13_dedupe, r13.rule_collect, r13.rule_alt_relink, r13.rule_cost_marks, r13.rule_T4, r12.rule_R1c],
-    "C05": [lambda ctx, rep: r9.rule_R9(ctx, rep, only=["yaep_parse"]), r9.rule_ambiguity_writers, r15.rule_R15],
+    "C05": [lambda ctx, rep: r9.rule_R9(ctx, rep, only=["yaep_parse"]), r9.rule_ambiguity_writers, r15.rule_R15, c03.rule_candidates,
+            c10.rule_fixpoints, r21.rule_R21_dedupe, r22.rule_R22_context, r22.rule_R22_lookahead],
     "C01": [r6.rule_R6_flags, r6.rule_R6_debug, r7.rule_T3, c10.rule_fixpoints, r15.rule_R15, r20.rule_R20, r21.rule_R21, r21.rule_R21_dedupe, r22.rule_R22_context, r22.rule_R22_lookahead, r22.rule_R22_boundaries],
     "C03": [c03.rule_table_complete, c03.rule_origins_followed, c03.rule_alt_not_alt, c03.rule_candidates, c03.rule_reuse, c03.rule_copy_consistency, c03.rule_parent_state, c03.rule_slot_pairing, c03.rule_list_owner, r20.rule_R20_dag, r7.rule_translation_reading, r13.rule_births, r15.rule_R15, r21.rule_R21, c10.rule_fixpoints],
     "C02": [c03.rule_copy_consistency, c03.rule_parent_state, c03.rule_slot_pairing, c03.rule_list_owner, r7.rule_T1, r7.rule_translation_reading, r13.rule_births, r4.rule_R4d, r13.rule_R13_marks, r12.rule_R1c],
